@@ -307,3 +307,18 @@ Theorem C03_memory_table_invariants : forall (array : bool) cfg n V (t : atable)
   Z.of_nat (n * length t) < 2 ^ 57 ->
   TInv n (mem_table array cfg n V t pz) M.
 Proof. exact mem_table_TInv. Qed.
+
+(* the same for the PROBING model (C03/ProbingEndToEnd.v): pmem_table = the entry decoded from the unigram array, or from what Find returns
+   for the 64-bit hash of the n-gram in the linear-probing table of its order (laid out by Insert in loader order, C03/ProbingImage.v).
+   Under the assumption the code makes about its hash -- it separates the n-grams over the vocabulary and none hashes to the empty key --
+   and with room in every table, the decoded table satisfies TInv whenever the loaded table does. *)
+From Kenlm Require Import C03.ProbingEndToEnd.
+Theorem C03_probing_memory_table_invariants : forall buckets n V (t : atable) M,
+  (2 <= n)%nat -> TInv n (Defs.alookup t) M -> NoDup (map fst t) ->
+  (forall w, Defs.alookup t [w] <> None <-> Z.of_N w < V) ->
+  (forall k e, Defs.alookup t k = Some e -> - 2 ^ 24 < e_prob e <= 0 /\ - 2 ^ 24 < e_bo e < 2 ^ 24) ->
+  (forall j, (2 <= j <= n)%nat -> (length (order_entries t j) < nth (j - 2) buckets 0)%nat) ->
+  (forall k, over_vocab n V k -> hash_key k <> 0) ->
+  (forall k1 k2, over_vocab n V k1 -> over_vocab n V k2 -> hash_key k1 = hash_key k2 -> k1 = k2) ->
+  TInv n (pmem_table buckets n V t) M.
+Proof. exact pmem_table_TInv. Qed.
